@@ -39,12 +39,16 @@ def jump_groups(prefix):
 
 
 GROUPS = groups("C01", False, ("mov", "add", "addc", "sub", "cmp", "bit", "xor", "and")) + jump_groups("C01")
+GROUPS.append(Group(name="C01/riscv.branch_jal_immediates", unity="C01/u_riscv_imm.cpp", entry="h_riscv_imm",
+                    functions=[("permutate_branch, permutate_jal (encoder)", "asm/riscv.cpp", "extracted verbatim; loop-free, full domain"), ("permutate_branch, permutate_jal (decoder)", "disasm/riscv.cpp", "extracted verbatim; loop-free, full domain")],
+                    checks=CH, timeout=600))
 LEVEL = "proof"
-TRUSTED = ["spec_two()/spec_src() in contracts/C01/u_asm430.cpp are a hand transcription of SLAU144 sections 3.3-3.4",
+TRUSTED = ["spec_enc_b/spec_dec_b/spec_enc_j/spec_dec_j in contracts/C01/u_riscv_imm.cpp are a hand transcription of the B-type and J-type immediate layouts of the RISC-V manual",
+           "spec_two()/spec_src() in contracts/C01/u_asm430.cpp are a hand transcription of SLAU144 sections 3.3-3.4",
            "tokens_get/tokens_push/eval_expression/ignore_operand replaced by the token-script contract (token kinds concrete per form, values symbolic)",
            "Memory replaced by a write log plus the pass-1 flag byte"]
 MANIFEST = {
     "text": "Per instruction form (mnemonic x source mode x destination mode x size suffix) the real MSP430 encoder is compared with the manual's encoding for all register numbers, all 32-bit operand values and all even load addresses; the disassembler length contract (C08) composes to 'decodes exactly the emitted bytes'.",
-    "note": "Claimed for the MSP430 core double-operand instructions; the text round trip, MSP430X, RV32I and the other CPUs are not decided (DESIGN 4, C01 gap).",
+    "note": "Claimed for the MSP430 core double-operand instructions; for RV32I only the B-type/J-type immediate encoder/decoder pair (all offsets, all instruction words, encode-decode fixpoint) is under contract; the text round trip, MSP430X and the other CPUs are not decided (DESIGN 4, C01 gap).",
     "technique": "CBMC contract harness (token-script contract, spec function from SLAU144) on asm/msp430.cpp + core/add_bin.cpp + the real cpu_list row",
 }
